@@ -188,6 +188,8 @@ def analyse(ck, prog=None):
             kp = P.norm(b["keep"])
             good = (i is not None and lc.is_var(j, 0, 4) and P.norm(b["val"]) == ("idx", ("idx", B, i), j)
                     and isinstance(kp, tuple) and kp[0] == "idx" and kp[2] == j)
+            # the write happens for every (inner, limb): its only control context is the enclosing loops
+            good = good and all(g[0] == "loop" for c in T.upd_write_ctrl(ev, t3) for g in c) and bool(T.upd_write_ctrl(ev, t3))
     ob.add({"C12"}, good, "TERM", "pub/first-real/block-hash", "block_ref[j] = {zero, select(take_i, block_hashes[i][j], block_ref[j])}, j in 0..4", e3.loc, T.show(t3, maxdepth=6)[:400])
     block_ref = t3
     scalar_ref(items[4][1], OFF["BLOCK_NUMBER_OFFSET"], "block-number", items[4][2])
